@@ -6,6 +6,7 @@ import (
 	"fmt"
 	"sort"
 	"sync"
+	"time"
 
 	"github.com/lidofinance/dc4bc/client/services/fsmservice"
 	"github.com/lidofinance/dc4bc/client/types"
@@ -118,6 +119,17 @@ func explore19(r *kit.Run, n, t int) (int, int, string) {
 		fsmInput{"event_signing_init", sif.EventSigningInit, def},
 		fsmInput{"event_signing_restart", sif.EventSigningRestart, def},
 	)
+	// timestamps at the end of the calendar: the deadline computed from them (CreatedAt + 7 days)
+	// lies in the year 10000, which the dump's JSON encoding cannot express
+	farFuture := time.Date(9999, 12, 28, 0, 0, 0, 0, time.UTC)
+	if lr, ok := initReq.(requests.SignatureProposalParticipantsListRequest); ok {
+		lr.CreatedAt = farFuture
+		alphabet = append(alphabet, fsmInput{"event_sig_proposal_init[created in 9999]", spf.EventInitProposal, lr})
+	}
+	alphabet = append(alphabet,
+		fsmInput{"event_dkg_init_process[created in 9999]", dpf.EventDKGInitProcess, requests.DefaultRequest{CreatedAt: farFuture}},
+		fsmInput{"event_signing_init[created in 9999]", sif.EventSigningInit, requests.DefaultRequest{CreatedAt: farFuture}},
+	)
 	for _, b := range []string{"batch-1", "batch-2"} {
 		alphabet = append(alphabet, fsmInput{"event_signing_start[" + b + "]", sif.EventSigningStart, requests.SigningBatchProposalStartRequest{BatchID: b, ParticipantId: 0, CreatedAt: world.T0, SigningTasks: []requests.SigningTask{{MessageID: b + "-m", File: "f", Payload: []byte(b)}}}})
 		for p := 0; p < n; p++ {
@@ -199,6 +211,9 @@ func explore19(r *kit.Run, n, t int) (int, int, string) {
 				return nil, err
 			}
 			o1 := run(a, in)
+			if !o1.errd && o1.dump == "" {
+				r.Violation("C19/accepted-event-leaves-no-dump/"+string(in.Event), fmt.Sprintf("in %s the event %s is accepted (no error, new state %s) but the round it leads to cannot be saved: Do returns an empty dump", dd.State, in.Label, o1.state), trace(in.Label))
+			}
 			// in-memory continuation. A hand-over state (the exit state of one machine that is the
 			// entry state of the next) has no live continuation in the product: the node switches
 			// machines by FromDump ("switch FSM state by hand"), so the live side is rebuilt the
